@@ -44,6 +44,20 @@ def load_corpus():
             for f in sorted(os.listdir(os.path.join(bd, d))):
                 if f.startswith("patch") and f.endswith(".diff"):
                     refs.append({"id": f"refactor-{d}-{f[5:-5]}", "props": allp, "edits": [], "patch": os.path.join(bd, d, f)})
+    # round 2 (held out when it was written, section 13 of DESIGN.md): the refactorings that were repaired to silence are part of the corpus;
+    # the ones listed in benign2/NOT_SILENT.txt are known not to be (different algorithms / data structures; recorded, not hidden)
+    b2 = os.path.join(VERIF, "benign2")
+    if os.path.isdir(b2):
+        try:
+            skip = {l.strip() for l in open(os.path.join(b2, "NOT_SILENT.txt")) if l.strip()}
+        except OSError:
+            skip = set()
+        for d in sorted(os.listdir(b2)):
+            if not os.path.isdir(os.path.join(b2, d)):
+                continue
+            for f in sorted(os.listdir(os.path.join(b2, d))):
+                if f.startswith("patch") and f.endswith(".diff") and f"{d}/{f}" not in skip:
+                    refs.append({"id": f"refactor2-{d}-{f[5:-5]}", "props": allp, "edits": [], "patch": os.path.join(b2, d, f)})
     return list(MUTANTS) + seeds, list(BENIGN) + refs
 
 
